@@ -1225,10 +1225,12 @@ CONFIG_PLUMBING = {
 def r01_7(chk: Check):
     """the configured settings reach the solver objects: the result is a function of model AND settings"""
     S = chk.src
+    from .c13 import written_out     # f(a, **D) with D a local dict display that is only read passes the keys of D as keyword arguments
     mgr = S.cls("manager:WallGoManager")
     for ctor, mapping in CONFIG_PLUMBING.items():
         site = None
-        for name, f_ in mgr.methods.items():
+        for name, f0 in mgr.methods.items():
+            f_ = written_out(S, f0) if any(isinstance(c, ast.Call) and isinstance(c.func, ast.Name) and c.func.id == ctor for c in own_nodes(f0.node)) else f0
             for c in own_nodes(f_.node):
                 if isinstance(c, ast.Call) and isinstance(c.func, ast.Name) and c.func.id == ctor:
                     site = (f_, c)
@@ -1244,6 +1246,8 @@ def r01_7(chk: Check):
         params = [p for p in target.params() if p != "self"]
         bound = {}
         for i, a in enumerate(c.args):
+            if isinstance(a, ast.Starred):
+                break                      # (the positions behind a splat that is not written out are not known)
             if i < len(params):
                 bound[params[i]] = a
         for k in c.keywords:
@@ -1546,8 +1550,64 @@ def r01_11(chk: Check):
     chk.floor("R01.11", 2)
 
 
+def r01_13(chk: Check):
+    """The pressure solveWall evaluates itself at the TOP of the window decides what kind of answer is possible at all: negative -> runaway, otherwise it
+    is one end of the bracket handed to the root finder (and is returned to it from the cache, never re-evaluated).  Its convergence flags are
+    overwritten by the next evaluation, so they must be consulted on EVERY path from that evaluation to the next one (or to a return) -- not only on
+    the path on which the pressure came out negative.  Otherwise a non-converged pressure of the wrong sign makes the root finder converge onto the
+    window end, and that velocity is reported as a solution although the converged pressure there is far from zero."""
+    sw = _SolveWall(chk)
+    fs, g, cx = sw.fs, sw.g, sw.cx
+    evals = [e for e in g.stmts_calling("wallPressure")]
+    flags = ("self.successWallPressure", "self.successTemperatureProfile")
+    def consults(x, fl: str, outs: set) -> bool:
+        """x reads the flag whenever it is evaluated -- not behind a short-circuit operand that depends on the outputs of the evaluation"""
+        if isinstance(x, ast.Attribute) and n(x) == fl:
+            return True
+        if isinstance(x, ast.BoolOp):
+            for i, v in enumerate(x.values):
+                if consults(v, fl, outs):
+                    return not any(isinstance(y, ast.Name) and y.id in outs for u in x.values[:i] for y in ast.walk(u))
+            return False
+        if isinstance(x, ast.IfExp):
+            return consults(x.test, fl, outs) or (consults(x.body, fl, outs) and consults(x.orelse, fl, outs))
+        if isinstance(x, (ast.Lambda, ast.FunctionDef)):
+            return False
+        return any(consults(c, fl, outs) for c in ast.iter_child_nodes(x))
+
+    def reads_for(outs: set):
+        def reads(q) -> bool:
+            if not isinstance(q, ast.AST) or g.kind.get(q) in ("def", "handler"):
+                return False
+            if not all(_reads(q, fl, cx) for fl in flags):
+                return False
+            r = cx.resolve(q, keep=set(cx.local_defs())) if any(isinstance(c, ast.Call) for c in ast.walk(q)) else q
+            return all(consults(q, fl, outs) or consults(r, fl, outs) for fl in flags)
+        return reads
+
+    J = _Judged(sw)
+    cnt = 0
+    for e in evals:
+        # the evaluation may be one arm of a conditional expression or sit in a temporary: look at the wallPressure call itself
+        calls_ = [c for c in ast.walk(e) if isinstance(c, ast.Call) and _wallpressure_call(c)] if isinstance(e, ast.AST) and g.kind.get(e) != "def" else []
+        vels = [kwarg(c, "wallVelocity", 0) for c in calls_]
+        if not any(v is not None and eqx(cx.resolve(v), "wallVelocityMax") for v in vels):
+            continue
+        cnt += 1
+        nxt = [q for q in evals if q is not e] + [q for q in g.nodes if isinstance(q, ast.Return)]
+        # every path from this evaluation to the next evaluation / a return consults both flags first
+        reads = reads_for(J.outputs(e))
+        bad = [q for q in nxt if g.reaches([e], q, avoid=lambda x: x is not q and x is not e and (x in evals or isinstance(x, ast.Return))) and not g.must_pass(e, q, reads)]
+        chk.ob("R01.13", fs.where(e), "solveWall consults the convergence flags of its own pressure evaluation at the top of the window on every path before the next "
+               "evaluation overwrites them (also when that pressure came out positive and becomes a bracket end)", not bad,
+               "; ".join(f"path to line {q.lineno} (`{n(q)[:40]}`) reads no flag" for q in bad)[:300], key="end-flags|wallVelocityMax")
+    if cnt != 1:
+        raise AnchorMissing("solveWall: its own pressure evaluation at wallVelocityMax not found")
+    chk.floor("R01.13", 1)
+
+
 def rules(chk: Check) -> None:
-    for grp in (r01_7, r01_8, r01_1, r01_2, r01_3, r01_4, r01_5, r01_6, r01_9, r01_10, r01_11):
+    for grp in (r01_7, r01_8, r01_1, r01_2, r01_3, r01_4, r01_5, r01_6, r01_9, r01_10, r01_11, r01_13):
         chk.stage(grp, chk)
     # R01.12: every pressure evaluation inside the iteration receives the boundary data in the roles they were computed for (T+ / T- / vevs / c1 / c2:
     # shared with C04 R04.3) -- a swapped pair changes the branch of the plasma equations and the ends of the reported profiles
